@@ -41,7 +41,8 @@ import CatVerif.Proofs.Log
 import CatVerif.Proofs.Stutter
 import CatVerif.Proofs.DispatchIO
 import CatVerif.Proofs.Sched
-import CatVerif.Proofs.Steps
+import CatVerif.Proofs.Steps.ReadChar
+import CatVerif.Proofs.Steps.Output
 namespace Cat
 open St
 
@@ -162,5 +163,10 @@ theorem C12_alone (D : Desc) (s : St) (i : SvcIn) (hu : s.ustate = .idle) (hc : 
 /-- non-vacuity: a schedule that withholds the input once and then offers it, run on `AT` LF -/
 example : (runS default {} (init default [] [] []) [65, 84, 10]
     [⟨false, true⟩, ⟨true, false⟩, ⟨true, true⟩, ⟨false, false⟩, ⟨true, true⟩]).2.2.2 = true := by decide
+
+/-- the two output steps (offer the byte, advance only when it was accepted) are the functions re-recognised in
+`process_io_write` / `unsolicited_process_io_write` on every run (translator item T10) -/
+theorem C12_write_generated : processIoWrite = Gen.process_io_write ∧ unsolicitedProcessIoWrite = Gen.unsolicited_process_io_write :=
+  ⟨processIoWrite_generated, unsolicitedProcessIoWrite_generated⟩
 
 end Cat
